@@ -271,6 +271,29 @@ Theorem C15_singular_witness_repaired :
             cubic_unit_tangent NR TR true w_s w_c1 w_c2 w_e 0 = Val u.
 Proof. exact singular_witness_repaired. Qed.
 
+(* --- covariance of the (repaired) unit tangent at EVERY point, zeros of the derivative included:
+       mapping the control points by p |-> w p + z (translation, rotation, uniform scaling by
+       lambda > 0 or < 0: w = lambda e^{i theta} <> 0) maps the unit tangent by w/|w|; when no
+       direction exists both sides are the same error.  At a zero of the derivative the value is the
+       direction of the next non-vanishing derivative, which maps the same way. --- *)
+Theorem C15_tangent_similarity_all : forall w z s c1 c2 e t, w <> (0, 0) ->
+  cubic_unit_tangent NR TR true (aff w z s) (aff w z c1) (aff w z c2) (aff w z e) t
+  = res_map (cmul NR (unit_of NR TR w)) (cubic_unit_tangent NR TR true s c1 c2 e t) /\
+  quad_unit_tangent NR TR true (aff w z s) (aff w z c1) (aff w z e) t
+  = res_map (cmul NR (unit_of NR TR w)) (quad_unit_tangent NR TR true s c1 e t).
+Proof.
+  intros w z s c1 c2 e t Hw.
+  split; [exact (@tangent_similarity_all_cubic w z s c1 c2 e t Hw)|exact (@tangent_similarity_all_quad w z s c1 e t Hw)].
+Qed.
+(* reversal at the end points, singular or not: tangent of the reversed curve at 1 - t is negated *)
+Theorem C15_tangent_reversed_ends : forall s c1 c2 e t, t = 0 \/ t = 1 ->
+  cubic_unit_tangent NR TR true e c2 c1 s (1 - t) = res_map (copp NR) (cubic_unit_tangent NR TR true s c1 c2 e t) /\
+  quad_unit_tangent NR TR true e c1 s (1 - t) = res_map (copp NR) (quad_unit_tangent NR TR true s c1 e t).
+Proof.
+  intros s c1 c2 e t Ht.
+  split; [exact (@tangent_reversed_ends_cubic s c1 c2 e t Ht)|exact (@tangent_reversed_ends_quad s c1 e t Ht)].
+Qed.
+
 (* --- non-vacuity --- *)
 Example C15_nonvacuous_regular :
   cubic_d NR (0, 0) (1, 0) (2, 1) (3, 3) (1 / 2) 1 <> (0, 0).
@@ -311,6 +334,8 @@ Print Assumptions C15_singular_limit.
 Print Assumptions C15_singular_limit_quad.
 Print Assumptions C15_singular_degenerate.
 Print Assumptions C15_singular_witness_repaired.
+Print Assumptions C15_tangent_similarity_all.
+Print Assumptions C15_tangent_reversed_ends.
 Print Assumptions C15_singular_sign_refuted.
 Print Assumptions C15_singular_sign_left_half_refuted.
 Print Assumptions C15_singular_sign_refuted_exec.
